@@ -34,7 +34,7 @@ class Pseq(ListPattern):
     def __embed__(self, inval):
         # if (inval.eventAt('reverse') == true, { # Not good.
         lst = self.lst
-        offset = self.offset
+        offset = self.offset % len(lst)
         for _ in bi.counter(self.repeats):
             for item in lst[offset:]:
                 inval = yield from stm.embed(item, inval)
@@ -133,7 +133,7 @@ class Ptuple(ListPattern):
 class Place(Pseq):
     def __embed__(self, inval):
         lst = self.lst
-        offset = self.offset
+        offset = self.offset % len(lst)
         lst = lst[offset:] + lst[:offset]
         for j in bi.counter(self.repeats):
             for item in lst:
@@ -147,7 +147,7 @@ class Placep(Pseq):  # Was Ppatlace.
     def __embed__(self, inval):
         lst = self.lst
         size = len(lst)
-        offset = self.offset
+        offset = self.offset % size
         stream_lst = [stm.stream(i) for i in lst[offset:]]
         stream_lst += [stm.stream(i) for i in lst[:offset]]
         done = 0
